@@ -9,31 +9,59 @@ import (
 )
 
 type c17Items struct {
-	calls   int
-	lastID  string
-	lastVia string
+	calls    int
+	lastID   string
+	lastVia  string
+	lastSeen string // the other handler-visible request fields, rendered
 }
 
 func (s *c17Items) GetItem(_ context.Context, r *ItemReq) (*ItemResp, error) {
 	s.calls, s.lastID, s.lastVia = s.calls+1, r.ItemId, "GetItem"
+	s.lastSeen = c17Render(r.Big, 0, "")
 	return &ItemResp{Id: r.ItemId, Total: r.Big}, nil
 }
 func (s *c17Items) UpdateItem(_ context.Context, r *UpdateReq) (*ItemResp, error) {
 	s.calls, s.lastID, s.lastVia = s.calls+1, r.ItemId, "UpdateItem"
+	s.lastSeen = c17Render(r.Big, r.Count, r.Note)
 	return &ItemResp{Id: r.ItemId, Total: int64(r.Count)}, nil
 }
 
 type c17Other struct {
-	calls   int
-	lastVia string
+	calls    int
+	lastVia  string
+	lastSeen string
+}
+
+// c17Render: the request fields a handler saw, as text (small concrete value sets)
+func c17Render(big int64, count int32, note string) string {
+	out := "big="
+	switch big {
+	case 0:
+		out += "0"
+	case 7:
+		out += "7"
+	case 9:
+		out += "9"
+	default:
+		out += "?"
+	}
+	switch count {
+	case 0:
+		out += " count=0"
+	case 3:
+		out += " count=3"
+	default:
+		out += " count=?"
+	}
+	return out + " note=" + note
 }
 
 func (s *c17Other) Create(_ context.Context, r *OtherReq) (*ItemResp, error) {
-	s.calls, s.lastVia = s.calls+1, "Create"
+	s.calls, s.lastVia, s.lastSeen = s.calls+1, "Create", "name="+r.Name
 	return &ItemResp{Id: r.Name}, nil
 }
 func (s *c17Other) Remove(_ context.Context, r *OtherReq) (*ItemResp, error) {
-	s.calls, s.lastVia = s.calls+1, "Remove"
+	s.calls, s.lastVia, s.lastSeen = s.calls+1, "Remove", "name="+r.Name
 	return &ItemResp{Id: r.Name}, nil
 }
 
@@ -41,6 +69,7 @@ type c17Spec struct {
 	route                         int // 0 GET item, 1 PUT item, 2 POST other/create, 3 DELETE other/remove
 	id                            string
 	apiKey, requestID, count, ten int // 0 absent, 1 valid, 2 malformed
+	query, body                   int // URL parameters / body contents: see c17Build
 }
 
 const c17UUID = "123e4567-e89b-12d3-a456-426614174000"
@@ -50,8 +79,12 @@ func c17SymSpec(p string) c17Spec {
 	if verif.Thorough() {
 		modes = 3 // ... | malformed
 	}
-	return c17Spec{route: verif.Choice(p+".route", 4), id: []string{"a", "bb"}[verif.Choice(p+".id", 2)],
-		apiKey: verif.Choice(p+".X-API-Key", modes), requestID: verif.Choice(p+".X-Request-ID", modes), count: verif.Choice(p+".X-Count", modes), ten: verif.Choice(p+".X-Tenant", 2)}
+	sp := c17Spec{route: verif.Choice(p+".route", 4), id: "a", apiKey: verif.Choice(p+".X-API-Key", modes), requestID: 1, count: verif.Choice(p+".X-Count", modes), ten: 1,
+		query: verif.Choice(p+".query", 3), body: verif.Choice(p+".body", 3)}
+	if p == "B" {
+		sp.id = []string{"a", "bb"}[verif.Choice(p+".id", 2)]
+	}
+	return sp
 }
 
 func c17Build(s c17Spec) *http.Request {
@@ -69,27 +102,41 @@ func c17Build(s c17Spec) *http.Request {
 	set("X-Request-Id", s.requestID, c17UUID)
 	set("X-Count", s.count, "12")
 	set("X-Tenant", s.ten, "t1")
+	// query: 0 no parameter, 1 and 2 two different values; body (PUT/POST only): 0 empty,
+	// 1 and 2 two different documents
+	r.Body = verif.Body(nil)
 	switch s.route {
 	case 0:
 		r.Method, r.URL.Path = "GET", "/api/v1/items/"+s.id
-		verif.SetQuery(r, url.Values{"big": []string{"7"}})
+		verif.SetQuery(r, []url.Values{{}, {"big": []string{"7"}}, {"big": []string{"9"}}}[s.query])
 	case 1:
 		r.Method, r.URL.Path = "PUT", "/api/v1/items/"+s.id
-		verif.SetQuery(r, url.Values{})
+		verif.SetQuery(r, []url.Values{{}, {"count": []string{"3"}}, {}}[s.query])
+		switch s.body {
+		case 1:
+			r.Body = verif.Body(verif.JObj("note", verif.JStr("n1")))
+		case 2:
+			r.Body = verif.Body(verif.JObj("big", verif.JStr("9")))
+		}
 	case 2:
 		r.Method, r.URL.Path = "POST", "/other/create"
 		verif.SetQuery(r, url.Values{})
+		switch s.body {
+		case 1:
+			r.Body = verif.Body(verif.JObj("name", verif.JStr("alice")))
+		case 2:
+			r.Body = verif.Body(verif.JObj("name", verif.JStr("bob")))
+		}
 	default:
 		r.Method, r.URL.Path = "DELETE", "/other/remove/"+s.id
 		verif.SetQuery(r, url.Values{})
 	}
-	r.Body = verif.Body(nil)
 	return r
 }
 
 type c17Outcome struct {
 	status, itemCalls, otherCalls int
-	via, id                       string
+	via, id, seen                 string
 	violations                    int
 }
 
@@ -99,10 +146,10 @@ func c17Run(mux *http.ServeMux, items *c17Items, other *c17Other, s c17Spec) c17
 	mux.ServeHTTP(w, c17Build(s))
 	o := c17Outcome{status: w.Status, itemCalls: items.calls - ic, otherCalls: other.calls - oc}
 	if o.itemCalls > 0 {
-		o.via, o.id = items.lastVia, items.lastID
+		o.via, o.id, o.seen = items.lastVia, items.lastID, items.lastSeen
 	}
 	if o.otherCalls > 0 {
-		o.via = other.lastVia
+		o.via, o.seen = other.lastVia, other.lastSeen
 	}
 	if w.Status == 400 {
 		_, o.violations = c02ViolationField(w)
@@ -135,7 +182,9 @@ func VerifC17ServerHistory() {
 	verif.Show("after.violations", after.violations)
 	verif.Assert("C17/server/same-status", after.status == alone.status)
 	verif.Assert("C17/server/same-handler", after.via == alone.via && after.itemCalls == alone.itemCalls && after.otherCalls == alone.otherCalls)
-	verif.Assert("C17/server/same-request-seen", after.id == alone.id)
+	verif.Show("alone.seen", alone.seen)
+	verif.Show("after.seen", after.seen)
+	verif.Assert("C17/server/same-request-seen", after.id == alone.id && after.seen == alone.seen)
 	verif.Assert("C17/server/same-violations", after.violations == alone.violations)
 	verif.Reach("C17/server/decided")
 }
